@@ -254,17 +254,26 @@ theorem crc_decimal_faithful (p : CRC.Params) (hp : p ∈ CRC.table) (m : Bytes)
   have : (2 : Nat) ^ 82 < 10 ^ 64 := by decide
   omega
 
-/-- XXH32 fits in 32 bits (so `i64::from(u32)` is the identity on it); XXH64 and SeaHash fit
-    in 64 bits (so `as i64` above applies). -/
+/-- XXH32 fits in 32 bits (so `i64::from(u32)` is the identity on it); XXH64, XXH3-64 and
+    SeaHash fit in 64 bits (so `as i64` above applies); XXH3-128 fits in 128 bits (so its decimal
+    text is faithful: 2^128 < 10^64). -/
 theorem word_bounds (seed : Nat) (m : Bytes) :
-    XXH.xxh32 seed m < 2 ^ 32 ∧ XXH.xxh64 seed m < 2 ^ 64 ∧ SeaHash.hash m < 2 ^ 64 := by
-  refine ⟨?_, ?_, ?_⟩
+    XXH.xxh32 seed m < 2 ^ 32 ∧ XXH.xxh64 seed m < 2 ^ 64 ∧ SeaHash.hash m < 2 ^ 64 ∧
+    XXH3.xxh3_64 m < 2 ^ 64 ∧ XXH3.xxh3_128 m < 2 ^ 128 := by
+  refine ⟨?_, ?_, ?_, xxh3_64_lt m, xxh3_128_lt m⟩
   · unfold XXH.xxh32 XXH.avalanche32
     exact xorshift_lt _ 16 32 (Nat.mod_lt _ (by decide))
   · unfold XXH.xxh64 XXH.avalanche64
     exact xorshift_lt _ 32 64 (Nat.mod_lt _ (by decide))
   · unfold SeaHash.hash SeaHash.hashSeeded SeaHash.diffuse
     exact Nat.mod_lt _ (by decide)
+
+theorem xxh3_128_decimal_faithful (m : Bytes) :
+    decValue (decAscii (XXH3.xxh3_128 m)) = XXH3.xxh3_128 m := by
+  apply decValue_decAscii
+  have := xxh3_128_lt m
+  have : (2 : Nat) ^ 128 < 10 ^ 64 := by decide
+  omega
 
 /-! ## (iii) hmac = RFC 2104 instantiated with the modelled hash -/
 
